@@ -29,6 +29,22 @@
 (*   GoLenientHour (one-digit hour), GoCommaFraction ("," for "."),        *)
 (*   GoZoneNoRange (zone hh > 23 / mm > 59 accepted).                      *)
 (*                                                                         *)
+(* Hand-over (section "hand-over"): HOW a value reaches the encoder is one  *)
+(* more choice at every marshal / generation action: the entry function    *)
+(* (xml.Marshal, MarshalIndent, Encoder.Encode, EncodeElement, json.Marshal *)
+(* or a direct MarshalText call) and the reflect path from its argument    *)
+(* down to the value (pointer, interface, struct field, slice / array      *)
+(* element, map value).  encoding/xml and encoding/json find a type's      *)
+(* marshalling method by Go's method-set rule: a value receiver is found   *)
+(* for values and pointers, a pointer receiver only on ADDRESSABLE values; *)
+(* when it is not found the value is written field by field (time.Time's   *)
+(* own RFC 3339 text, integer nanoseconds).  Receiver is the table of the  *)
+(* code as it is; the named deviation                                      *)
+(*   PointerReceiverMarshaller[type]  a value receiver became a pointer    *)
+(*                                    receiver                             *)
+(* is FALSE for every type in the registered configurations and TRUE in    *)
+(* TimeDur_C15dev.cfg, where TLC must refute the round trip.               *)
+(*                                                                         *)
 (* Layer 2, "Properties": written from the property statement only: an     *)
 (* independent recogniser (DFA) of the xsd:duration lexical space, the     *)
 (* table of documented dateTime forms, RoundMs, and the round-trip /       *)
@@ -37,14 +53,17 @@
 (***************************************************************************)
 EXTENDS Integers, Sequences, FiniteSets, TLC, Json
 
-CONSTANT Tier       \* "q" | "t" : size of the enumerated families
+CONSTANTS Tier,                       \* "q" | "t" : size of the enumerated families
+          PointerReceiverMarshaller,  \* named deviation: type name -> BOOLEAN
+          Families                    \* the kinds Init enumerates (all of them in the registered configurations)
 
-VARIABLES kind,     \* "dur" | "durstr" | "inst" | "inststr" | "md" | "esd" | "spmd" | "idpmd"
+VARIABLES kind,     \* "dur" | "durstr" | "inst" | "inststr" | "md" | "esd" | "spmd" | "idpmd" | "slots"
           vec,      \* the abstract input
+          how,      \* the hand-over mode chosen at the marshal / generation action
           pc,       \* "marshal" | "unmarshal" | "gen1" | "gen2" | "done"
-          text,     \* stage output: token sequence
+          text,     \* stage output: token sequence (slots: one attribute text per slot)
           back      \* stage output: what the text parses to / generations
-vars == <<kind, vec, pc, text, back>>
+vars == <<kind, vec, how, pc, text, back>>
 
 ----------------------------------------------------------------------------
 (* characters and numerals *)
@@ -253,6 +272,190 @@ IUnmarshal(t) ==
                                 f[4] * 100000 + f[5] * 10000 + f[6] * 1000 + f[7] * 100 + f[8] * 10 + f[9], off))]
 
 ----------------------------------------------------------------------------
+(* hand-over: how a value reaches encoding/xml, encoding/json or MarshalText *)
+
+\* The reflect path from the argument of the entry function down to the value:
+\*   "ptr"   pointer indirection    Value.Elem of a pointer: addressable
+\*   "iface" interface indirection  Value.Elem of an interface: NOT addressable
+\*   "field" field of a struct      addressable iff the struct is
+\*   "elem"  element of a slice     always addressable
+\*   "arr"   element of an array    addressable iff the array is
+\*   "mapv"  value of a map         never addressable (encoding/json only)
+\* reflect.ValueOf(x) itself, the start of every path, is not addressable.
+RECURSIVE AddrR(_, _, _)
+AddrR(p, i, a) == IF i > Len(p) THEN a
+                  ELSE AddrR(p, i + 1, CASE p[i] \in {"ptr", "elem"}   -> TRUE
+                                         [] p[i] \in {"iface", "mapv"} -> FALSE
+                                         [] OTHER                      -> a)
+Addressable(p) == AddrR(p, 1, FALSE)
+
+\* a mode: library, entry function, carrier syntax of a text value, path
+\*   car: "elem" element content, "attr" attribute, "attro" attribute with omitempty, "str" JSON string,
+\*        "raw" the byte slice MarshalText returned
+HowRec(n, lib, fn, car, p) == [n |-> n, lib |-> lib, fn |-> fn, car |-> car, path |-> p]
+XHow(n, fn, p) == HowRec(n, "xml", fn, "elem", p)
+\* struct types (W = an enclosing struct with one field)
+StructHows == {
+  XHow("marshal:ptr", "Marshal", <<"ptr">>),                       \* xml.Marshal(&v)
+  XHow("marshal:val", "Marshal", <<>>),                            \* xml.Marshal(v)
+  XHow("marshal:ptrptr", "Marshal", <<"ptr", "ptr">>),             \* p := &v; xml.Marshal(&p)
+  XHow("marshal:ptr-iface-val", "Marshal", <<"ptr", "iface">>),    \* var i any = v; xml.Marshal(&i)
+  XHow("indent:ptr", "MarshalIndent", <<"ptr">>),
+  XHow("indent:val", "MarshalIndent", <<>>),
+  XHow("encode:ptr", "Encode", <<"ptr">>),                         \* xml.NewEncoder(w).Encode(&v)
+  XHow("encode:val", "Encode", <<>>),
+  XHow("encodeelement:ptr", "EncodeElement", <<"ptr">>),
+  XHow("encodeelement:val", "EncodeElement", <<>>),
+  XHow("field:wrapval", "Marshal", <<"field">>),                   \* xml.Marshal(W{V: v})
+  XHow("field:wrapptr", "Marshal", <<"ptr", "field">>),            \* xml.Marshal(&W{V: v})
+  XHow("ptrfield:wrapval", "Marshal", <<"field", "ptr">>),         \* xml.Marshal(W{P: &v})
+  XHow("slice:wrapval", "Marshal", <<"field", "elem">>),           \* xml.Marshal(W{S: []T{v}})
+  XHow("ptrslice:wrapval", "Marshal", <<"field", "elem", "ptr">>), \* xml.Marshal(W{S: []*T{&v}})
+  XHow("array:wrapval", "Marshal", <<"field", "arr">>),            \* xml.Marshal(W{A: [1]T{v}})
+  XHow("array:wrapptr", "Marshal", <<"ptr", "field", "arr">>),     \* xml.Marshal(&W{A: [1]T{v}})
+  XHow("iface:wrapval", "Marshal", <<"field", "iface">>),          \* xml.Marshal(W{I: any(v)})
+  XHow("iface:wrapptr", "Marshal", <<"ptr", "field", "iface">>),   \* xml.Marshal(&W{I: any(v)})
+  XHow("ifaceptr:wrapval", "Marshal", <<"field", "iface", "ptr">>) \* xml.Marshal(W{I: any(&v)})
+}
+\* text types (Duration, RelaxedTime)
+CallHow == HowRec("call", "call", "MarshalText", "raw", <<"ptr">>) \* x.MarshalText() on a variable: the compiler takes the address
+TextHows == {
+  CallHow,
+  HowRec("xml:elem:val", "xml", "Marshal", "elem", <<>>),                          \* xml.Marshal(x)
+  HowRec("xml:elem:ptr", "xml", "Marshal", "elem", <<"ptr">>),                     \* xml.Marshal(&x)
+  HowRec("xml:attr:wrapval", "xml", "Marshal", "attr", <<"field">>),               \* xml.Marshal(W{A: x}), A `xml:",attr"`
+  HowRec("xml:attr:wrapptr", "xml", "Marshal", "attr", <<"ptr", "field">>),
+  HowRec("xml:attrptr:wrapval", "xml", "Marshal", "attr", <<"field", "ptr">>),     \* W{A: &x}
+  HowRec("xml:attromit:wrapval", "xml", "Marshal", "attro", <<"field">>),          \* A `xml:",attr,omitempty"`
+  HowRec("xml:elem:slice", "xml", "Encode", "elem", <<"field", "elem">>),          \* W{S: []T{x}}
+  HowRec("xml:elem:iface", "xml", "MarshalIndent", "elem", <<"ptr", "field", "iface">>),  \* &W{I: any(x)}
+  HowRec("json:val", "json", "Marshal", "str", <<>>),                              \* json.Marshal(x)
+  HowRec("json:ptr", "json", "Marshal", "str", <<"ptr">>),
+  HowRec("json:mapval", "json", "Marshal", "str", <<"mapv">>),                     \* map[string]T{"k": x}
+  HowRec("json:slice", "json", "Marshal", "str", <<"elem">>),                      \* []T{x}
+  HowRec("json:field:wrapval", "json", "Marshal", "str", <<"field">>),
+  HowRec("json:field:wrapptr", "json", "Encode", "str", <<"ptr", "field">>),       \* json.NewEncoder(w).Encode(&W{V: x})
+  HowRec("json:iface", "json", "Marshal", "str", <<"elem", "iface">>)              \* []any{x}
+}
+
+\* The code as it is: the receiver of each type's marshalling method (MarshalXML, for the two text
+\* types MarshalText); "none" = the type has no such method and is written field by field.
+\* Unmarshalling always goes through a pointer, so the receiver of Unmarshal* never matters.
+\* slot: a field that carries an instant ("inst") or a duration ("dur")
+\*   ptr  the field is a pointer (nil = absent);  oe  its tag says omitempty
+\*   mvia "relaxed": MarshalXML writes it as RelaxedTime / Duration; "plain": left to encoding/xml
+\*   uvia the same for UnmarshalXML
+\*   own / rel: the type whose methods carry the field and the path from the root value to it
+Slot(n, k, ptr, oe, mvia, uvia, own, rel) ==
+  [n |-> n, k |-> k, ptr |-> ptr, oe |-> oe, mvia |-> mvia, uvia |-> uvia, own |-> own, rel |-> rel]
+Rx(n, own) == Slot(n, "inst", FALSE, FALSE, "relaxed", "relaxed", own, <<>>)       \* time.Time `xml:",attr"` carried as RelaxedTime
+RoleSlots(own) == << Slot("validUntil", "inst", TRUE, TRUE, "plain", "plain", own, <<>>),
+                     Slot("cacheDuration", "dur", FALSE, TRUE, "plain", "plain", own, <<>>) >>
+EdSlots(rel)  == << Slot("validUntil", "inst", FALSE, TRUE, "relaxed", "relaxed", "EntityDescriptor", rel),
+                    Slot("cacheDuration", "dur", FALSE, TRUE, "relaxed", "relaxed", "EntityDescriptor", rel) >>
+EsdSlots(rel) == << Slot("validUntil", "inst", TRUE, TRUE, "relaxed", "relaxed", "EntitiesDescriptor", rel),
+                    Slot("cacheDuration", "dur", TRUE, TRUE, "relaxed", "relaxed", "EntitiesDescriptor", rel) >>
+Ty(recv, uni, slots) == [recv |-> recv, uni |-> uni, slots |-> slots]
+TypeTab ==
+     "Duration"                :> Ty("value", FALSE, <<>>)                      \* duration.go:16
+  @@ "RelaxedTime"             :> Ty("value", FALSE, <<>>)                      \* time.go:12
+  @@ "EntityDescriptor"        :> Ty("value", FALSE, EdSlots(<<>>))             \* metadata.go:150
+  @@ "EntitiesDescriptor"      :> Ty("value", FALSE, EsdSlots(<<>>))            \* metadata.go:43
+  @@ "RoleDescriptor"          :> Ty("none", FALSE, RoleSlots("RoleDescriptor"))
+  @@ "IDPSSODescriptor"        :> Ty("none", FALSE, RoleSlots("IDPSSODescriptor"))     \* embeds SSODescriptor, RoleDescriptor
+  @@ "SPSSODescriptor"         :> Ty("none", FALSE, RoleSlots("SPSSODescriptor"))
+  @@ "AffiliationDescriptor"   :> Ty("none", FALSE,
+        << Slot("validUntil", "inst", FALSE, TRUE, "plain", "plain", "AffiliationDescriptor", <<>>),
+           Slot("cacheDuration", "dur", FALSE, FALSE, "plain", "plain", "AffiliationDescriptor", <<>>) >>)
+  @@ "AuthnRequest"            :> Ty("pointer", FALSE, << Rx("IssueInstant", "AuthnRequest") >>)          \* schema.go
+  @@ "LogoutRequest"           :> Ty("pointer", FALSE,
+        << Rx("IssueInstant", "LogoutRequest"),
+           Slot("NotOnOrAfter", "inst", TRUE, FALSE, "relaxed", "relaxed", "LogoutRequest", <<>>) >>)
+  @@ "LogoutResponse"          :> Ty("pointer", FALSE, << Rx("IssueInstant", "LogoutResponse") >>)
+  @@ "ArtifactResolve"         :> Ty("pointer", FALSE, << Rx("IssueInstant", "ArtifactResolve") >>)
+  @@ "ArtifactResponse"        :> Ty("pointer", FALSE, << Rx("IssueInstant", "ArtifactResponse") >>)
+  @@ "Response"                :> Ty("pointer", FALSE, << Rx("IssueInstant", "Response") >>)
+  @@ "Assertion"               :> Ty("none", FALSE,                             \* UnmarshalXML only
+        << Slot("IssueInstant", "inst", FALSE, FALSE, "plain", "relaxed", "Assertion", <<>>) >>)
+  @@ "Conditions"              :> Ty("pointer", FALSE, << Rx("NotBefore", "Conditions"), Rx("NotOnOrAfter", "Conditions") >>)
+  @@ "SubjectConfirmationData" :> Ty("pointer", FALSE,                          \* the pair carries NotOnOrAfter only
+        << Slot("NotBefore", "inst", FALSE, FALSE, "plain", "plain", "SubjectConfirmationData", <<>>),
+           Rx("NotOnOrAfter", "SubjectConfirmationData") >>)
+  @@ "AuthnStatement"          :> Ty("pointer", FALSE,
+        << Rx("AuthnInstant", "AuthnStatement"),
+           Slot("SessionNotOnOrAfter", "inst", TRUE, TRUE, "relaxed", "relaxed", "AuthnStatement", <<>>) >>)
+  \* nested values: Response{Assertion *Assertion{Conditions *Conditions, AuthnStatements []AuthnStatement,
+  \* Subject *Subject{SubjectConfirmations []{SubjectConfirmationData *}}}}
+  @@ "ResponseTree"            :> Ty("pointer", TRUE,
+        << Rx("IssueInstant", "Response"),
+           Slot("IssueInstant", "inst", FALSE, FALSE, "plain", "relaxed", "Assertion", <<"field", "ptr">>),
+           Slot("NotBefore", "inst", FALSE, FALSE, "relaxed", "relaxed", "Conditions", <<"field", "ptr", "field", "ptr">>),
+           Slot("AuthnInstant", "inst", FALSE, FALSE, "relaxed", "relaxed", "AuthnStatement", <<"field", "ptr", "field", "elem">>),
+           Slot("NotOnOrAfter", "inst", FALSE, FALSE, "relaxed", "relaxed", "SubjectConfirmationData",
+                <<"field", "ptr", "field", "ptr", "field", "elem", "field", "ptr">>) >>)
+  \* EntitiesDescriptor{EntitiesDescriptors []{EntityDescriptors []}}
+  @@ "EntitiesTree"            :> Ty("value", TRUE,
+        EsdSlots(<<>>) \o EsdSlots(<<"field", "elem">>) \o EdSlots(<<"field", "elem", "field", "elem">>))
+TypeNames == DOMAIN TypeTab
+NoDeviation     == [ty \in TypeNames |-> FALSE]
+EveryValueRecvDeviates == [ty \in TypeNames |-> TRUE]
+
+Receiver(ty) == IF TypeTab[ty].recv = "value" /\ PointerReceiverMarshaller[ty] THEN "pointer" ELSE TypeTab[ty].recv
+\* Go's method-set rule as encoding/xml and encoding/json apply it (marshalValue: val.CanInterface() &&
+\* typ.Implements(marshalerType), else val.CanAddr() && PointerTo(typ).Implements(marshalerType))
+FoundAt(ty, h, rel) == CASE Receiver(ty) = "value"   -> TRUE
+                         [] Receiver(ty) = "pointer" -> Addressable(h.path \o rel)
+                         [] OTHER                    -> FALSE
+Found(ty, h) == FoundAt(ty, h, <<>>)
+
+(* what time.Time's own MarshalText writes: RFC 3339 with nanoseconds, in the value's own zone *)
+Abs(n) == IF n < 0 THEN -n ELSE n
+NanoFrac(ms, sub) == LET f == FracOf(ms * 1000000 + sub) IN IF FracNZ(f) THEN <<".">> \o TrimFrac(f) ELSE <<>>
+ZoneText(off) == IF off = 0 THEN <<"Z">>
+                 ELSE << IF off < 0 THEN "-" ELSE "+" >> \o Pad(Abs(off) \div 60, 2) \o <<":">> \o Pad(Abs(off) % 60, 2)
+GoTimeText(t) == Pad(t.y, 4) \o <<"-">> \o Pad(t.mo, 2) \o <<"-">> \o Pad(t.d, 2) \o <<"T">> \o Pad(t.h, 2) \o <<":">>
+                 \o Pad(t.mi, 2) \o <<":">> \o Pad(t.s, 2) \o NanoFrac(t.ms, t.sub) \o ZoneText(t.off)
+(* what encoding/xml and encoding/json write for a plain time.Duration / int64: strconv.FormatInt of the *)
+(* nanosecond count.  The numeral is never computed (32 bit): the token "N" stands for a non-zero one    *)
+IntText(d) == IF MagZero(d) THEN <<"0">> ELSE IF d.neg THEN <<"-", "N">> ELSE <<"N">>
+(* a struct without exported fields (RelaxedTime written field by field): no text form at all *)
+NoText == <<"?">>
+
+(* text types through a carrier *)
+DurTextVia(h, d)  == IF Found("Duration", h) THEN DMarshal(d) ELSE IntText(d)
+InstTextVia(h, t) == IF Found("RelaxedTime", h) THEN IMarshal(t) ELSE NoText
+\* a carrier hands UnmarshalText what the document holds: an attribute a="" and a JSON string "" are empty but
+\* not nil slices, which UnmarshalText does not take for 0 (named oddity EmptyTextNotNil); an empty element
+\* and the raw call pass nil; an omitempty attribute is not written and the field keeps its zero value
+DUnmarshalVia(car, t) == IF t = <<>> /\ car \in {"attr", "str"} THEN Err ELSE DUnmarshal(t)
+
+(* struct types: one attribute text per slot *)
+ZeroCivil == [y |-> 1, mo |-> 1, d |-> 1, h |-> 0, mi |-> 0, s |-> 0, ms |-> 0]
+InstZ == Inst(1, 1, 1, 0, 0, 0, 0, 0, 0)                     \* Go's zero time.Time
+SV(p, t, d) == [p |-> p, t |-> t, d |-> d]                  \* slot value: present, instant, duration
+Omitted == [om |-> TRUE, t |-> <<>>]
+Txt(t)  == [om |-> FALSE, t |-> t]
+SlotText(s, x, found) ==
+  IF ~x.p THEN Omitted                                       \* nil pointer: no attribute
+  ELSE IF s.k = "inst" THEN Txt(IF found /\ s.mvia = "relaxed" THEN IMarshal(x.t) ELSE GoTimeText(x.t))
+  ELSE IF found /\ s.mvia = "relaxed"
+         THEN (IF MagZero(x.d) THEN Omitted ELSE Txt(DMarshal(x.d)))     \* Duration + omitempty / the guard of metadata.go:50
+  ELSE IF MagZero(x.d) /\ s.oe /\ ~s.ptr THEN Omitted ELSE Txt(IntText(x.d))
+SlotBack(s, x, tx) ==
+  IF tx.om THEN [ok |-> TRUE, p |-> ~s.ptr, t |-> ZeroCivil, d |-> DurZero]       \* nil pointer / zero value
+  ELSE IF s.k = "inst" THEN
+         (IF s.uvia = "relaxed" THEN LET r == IUnmarshal(tx.t) IN [ok |-> r.ok, p |-> TRUE, t |-> r.t, d |-> DurZero]
+          \* time.Time's own parser (strict RFC 3339) reads what time.Time's MarshalText wrote: the exact instant,
+          \* projected to the millisecond for the comparison
+          ELSE [ok |-> TRUE, p |-> TRUE, t |-> RoundUTC(x.t), d |-> DurZero])
+  ELSE IF s.uvia = "relaxed" THEN LET r == DUnmarshalVia("attr", tx.t) IN
+                                  [ok |-> r.ok /\ ~r.ovf, p |-> TRUE, t |-> ZeroCivil, d |-> r.d]
+  ELSE [ok |-> TRUE, p |-> TRUE, t |-> ZeroCivil, d |-> x.d]                      \* strconv.ParseInt of FormatInt
+SlotVia(s, x, h) == SlotBack(s, x, SlotText(s, x, FoundAt(s.own, h, s.rel)))
+SlotsText(ty, vals, h) == [i \in DOMAIN vals |-> LET s == TypeTab[ty].slots[i] IN SlotText(s, vals[i], FoundAt(s.own, h, s.rel))]
+SlotsBack(ty, vals, txs) == [i \in DOMAIN vals |-> SlotBack(TypeTab[ty].slots[i], vals[i], txs[i])]
+
+----------------------------------------------------------------------------
 (* metadata: EntityDescriptor shapes and one marshal/unmarshal generation *)
 
 KnownBindings == {"post", "redirect", "artifact", "soap", "soapv1"}
@@ -270,18 +473,31 @@ EpsOk(eps) == \A i \in DOMAIN eps : EpGen(eps[i]).ok
 EpsGen(eps) == [i \in DOMAIN eps |-> EpGen(eps[i]).e]
 
 RoundVU(vu) == [z |-> vu.z, ms |-> vu.ms + (IF vu.sub >= 500000 THEN 1 ELSE 0), sub |-> 0]
-DurRT(d) == DUnmarshal(DMarshal(d)).d        \* attribute omitted for 0, else text -> value
+\* the cacheDuration attribute through one generation (the hand-over decides which marshaller writes it)
+CdVia(s, p, cd, h) == SlotVia(s, SV(p, InstZ, cd), h)
 
-Gen(v) ==
-  IF ~(EpsOk(v.idp.eps) /\ EpsOk(v.sp.eps)) THEN [err |-> TRUE, v |-> v]
+\* validUntil: whichever marshaller writes it (RelaxedTime rounded in UTC, or time.Time's own unrounded
+\* text), the type's UnmarshalXML reads it as RelaxedTime and rounds: the shape abstraction is the same
+Gen(v, h) ==
+  LET cd == CdVia(EdSlots(<<>>)[2], TRUE, v.cd, h) IN
+  IF ~(EpsOk(v.idp.eps) /\ EpsOk(v.sp.eps)) \/ ~cd.ok THEN [err |-> TRUE, v |-> v]
   ELSE [err |-> FALSE,
-        v |-> [v EXCEPT !.vu = RoundVU(v.vu), !.cd = DurRT(v.cd),
+        v |-> [v EXCEPT !.vu = RoundVU(v.vu), !.cd = cd.d,
                         !.idp.eps = EpsGen(v.idp.eps), !.sp.eps = EpsGen(v.sp.eps),
                         !.shadow = FALSE]]           \* ShadowedIdPArtifactResolution: never written
 
-\* EntitiesDescriptor: optional parts are pointers ("nil" when absent)
-EsdGen(v) == [v EXCEPT !.vu = IF v.vu.p THEN [p |-> TRUE, v |-> RoundVU(v.vu.v)] ELSE v.vu,
-                       !.cd = IF v.cd.p THEN [p |-> TRUE, v |-> DurRT(v.cd.v)] ELSE v.cd]
+\* EntitiesDescriptor: optional parts are pointers ("nil" when absent); nested children (slice elements)
+\* carry the same cache duration as the root
+EsdGen(v, h) ==
+  LET root == CdVia(EsdSlots(<<>>)[2], v.cd.p, v.cd.v, h)
+      kid  == CdVia(EsdSlots(<<"field", "elem">>)[2], v.cd.p, v.cd.v, h)
+  IN IF ~root.ok \/ (v.nested > 0 /\ ~kid.ok) THEN [err |-> TRUE, v |-> v]
+     ELSE [err |-> FALSE,
+           v |-> [v EXCEPT !.vu = IF v.vu.p THEN [p |-> TRUE, v |-> RoundVU(v.vu.v)] ELSE v.vu,
+                           !.cd = IF root.p THEN [p |-> TRUE, v |-> root.d] ELSE [p |-> FALSE, v |-> DurZero]]]
+
+\* generated SP / IdP metadata always has a non-zero cache duration (DefaultValidDuration when unset)
+GeneratedGen(h) == CdVia(EdSlots(<<>>)[2], TRUE, Dur(FALSE, 48, 0, 0, Zero9), h).ok
 
 ----------------------------------------------------------------------------
 (* the enumerated families *)
@@ -458,55 +674,116 @@ SpCfgs == { [cert |-> c, sigm |-> sm, slo |-> slo, eid |-> e, valid |-> vd, nidf
 IdpCfgs == { [valid |-> vd, slo |-> slo, now |-> nw] :
               vd \in {"default", "hours", "frac", "ns"}, slo \in BOOLEAN, nw \in {0, 499999, 500000} }
 
+\* hand-over: every mode on a core of each family, one addressable and one non-addressable mode on the rest
+\* (the outcome depends on the mode only through FoundAt and the carrier's treatment of the empty text)
+IsDurCore(d) == /\ <<d.h, d.m, d.s>> \in {<<0, 0, 0>>, <<0, 0, 1>>, <<1, 0, 0>>, <<2562047, 47, 16>>}
+                /\ d.f \in {Zero9, FracOf(500000000), FracOf(1), FracOf(854775807), FracOf(1959945)}
+                         \cup (IF Q THEN {} ELSE Dense)
+IsInstCore(t) == /\ <<t.y, t.mo, t.d>> \in {<<1, 1, 1>>, <<2024, 2, 29>>, <<9999, 12, 31>>}
+                 /\ <<t.h, t.mi, t.s>> \in (IF Q THEN {<<23, 59, 59>>} ELSE Tods)
+                 /\ t.ms \in {0, 999} /\ t.sub \in {0, 499999, 500000}
+                 /\ t.off \in {0, 840, -330}
+IsMdCore(v) == /\ v.eid = "url" /\ v.keys = "both" /\ ~v.org /\ ~v.contact /\ ~v.shadow
+               /\ v.idp = GoodIdp /\ (Q => v.sp = GoodSp)
+IsEsdCore(v) == ~v.id /\ (Q => v.name)
+ReprHows   == { h \in StructHows : h.n \in {"marshal:ptr", "marshal:val"} }
+\* ServeMetadata writes MarshalIndent(ptr); samlidp's service handler writes Encode(value)
+ServedHows == { h \in StructHows : h.n \in {"indent:ptr", "marshal:ptr", "marshal:val", "indent:val", "encode:val"} }
+HowsAt(k, v) ==
+  CASE k = "dur"   -> IF IsDurCore(v) THEN TextHows ELSE {CallHow}
+    [] k = "inst"  -> IF IsInstCore(v) THEN TextHows ELSE {CallHow}
+    [] k = "md"    -> IF IsMdCore(v) THEN StructHows ELSE ReprHows
+    [] k = "esd"   -> IF IsEsdCore(v) THEN StructHows ELSE ReprHows
+    [] k = "slots" -> StructHows
+    [] OTHER       -> ServedHows
+
+\* slots: every struct type of the package that carries an instant or a duration, with small value families
+SlotTypes == TypeNames \ {"Duration", "RelaxedTime"}
+SlotInsts == { InstZ, Inst(2031, 5, 6, 7, 8, 9, 123, 0, 0), Inst(2031, 5, 6, 7, 8, 9, 123, 456789, 120),
+               Inst(2024, 2, 29, 23, 59, 59, 999, 500000, -330), Inst(9999, 12, 31, 23, 59, 59, 998, 499999, 0) }
+             \cup (IF Q THEN {} ELSE { Inst(1, 1, 1, 0, 0, 0, 0, 1, 840), Inst(1970, 1, 1, 0, 0, 0, 0, 500001, -720),
+                                      Inst(9999, 12, 31, 23, 59, 59, 999, 500000, 0), Inst(2100, 2, 28, 23, 59, 59, 999, 999999, 1439) })
+SlotDurs  == CDs \cup (IF Q THEN {} ELSE { Dur(TRUE, 2562047, 47, 16, FracOf(854775808)), Dur(FALSE, 2562047, 47, 16, FracOf(854775807)),
+                                          Dur(FALSE, 0, 0, 0, FracOf(1959945)) })
+SlotVals(s) == (IF s.ptr THEN {SV(FALSE, InstZ, DurZero)} ELSE {})
+               \cup (IF s.k = "inst" THEN { SV(TRUE, t, DurZero) : t \in SlotInsts } ELSE { SV(TRUE, InstZ, d) : d \in SlotDurs })
+AnySV == {SV(FALSE, InstZ, DurZero)} \cup { SV(TRUE, t, DurZero) : t \in SlotInsts } \cup { SV(TRUE, InstZ, d) : d \in SlotDurs }
+\* tree types: every slot of a kind gets the same value, the pointer slots are nil together
+SlotVecs(ty) ==
+  LET ss == TypeTab[ty].slots IN
+  IF TypeTab[ty].uni
+    THEN { [i \in DOMAIN ss |-> IF ss[i].ptr /\ np THEN SV(FALSE, InstZ, DurZero)
+                                ELSE IF ss[i].k = "inst" THEN SV(TRUE, a, DurZero) ELSE SV(TRUE, InstZ, b)] :
+             a \in SlotInsts, np \in BOOLEAN,
+             b \in IF \E i \in DOMAIN ss : ss[i].k = "dur" THEN SlotDurs ELSE {DurZero} }
+    ELSE { f \in [DOMAIN ss -> AnySV] : \A i \in DOMAIN ss : f[i] \in SlotVals(ss[i]) }
+
 ----------------------------------------------------------------------------
 (* the pipeline: one action per stage *)
 
-Init == /\ \/ /\ kind = "dur" /\ pc = "marshal"
+Fam(k) == k \in Families
+AllFamilies == {"dur", "durstr", "inst", "inststr", "md", "esd", "spmd", "idpmd", "slots"}
+DevFamilies == {"slots"}                              \* TimeDur_C15dev.cfg
+
+Init == /\ \/ /\ Fam("dur") /\ kind = "dur" /\ pc = "marshal"
               /\ \E n \in BOOLEAN, w \in Whole, f \in Fracs :
                     vec = Dur(n, w[1], w[2], w[3], f) /\ IsDurVal(vec)
-           \/ kind = "inst"    /\ vec \in InstVals /\ pc = "marshal"
-           \/ /\ kind = "durstr" /\ pc = "unmarshal"
+           \/ Fam("inst") /\ kind = "inst"    /\ vec \in InstVals /\ pc = "marshal"
+           \/ /\ Fam("durstr") /\ kind = "durstr" /\ pc = "unmarshal"
               /\ \/ vec \in DurStrT \cup DurStrX
                  \/ \E n \in 0..SLen : \E ss \in [1..n -> Items] : vec = Flat(ss)
-           \/ kind = "inststr" /\ vec \in InstFlds /\ pc = "unmarshal"
-           \/ /\ kind = "md" /\ pc = "gen1"
+           \/ Fam("inststr") /\ kind = "inststr" /\ vec \in InstFlds /\ pc = "unmarshal"
+           \/ /\ Fam("md") /\ kind = "md" /\ pc = "gen1"
               /\ \/ vec \in MdShapesE
                  \/ \E eid \in EidO, id \in BOOLEAN, vu \in VUs, cd \in CdO, keys \in KeysO, org \in BOOLEAN,
                        contact \in BOOLEAN, idp \in {NoRole, GoodIdp}, sp \in {NoRole, GoodSp}, sh \in BOOLEAN :
                       vec = Shape(eid, id, vu, cd, keys, org, contact, idp, sp, sh) /\ (sh => idp.p)
-           \/ kind = "esd"     /\ vec \in EsdShapes /\ pc = "gen1"
-           \/ kind = "spmd"    /\ vec \in SpCfgs   /\ pc = "gen1"
-           \/ kind = "idpmd"   /\ vec \in IdpCfgs  /\ pc = "gen1"
+           \/ Fam("esd") /\ kind = "esd"     /\ vec \in EsdShapes /\ pc = "gen1"
+           \/ Fam("spmd") /\ kind = "spmd"    /\ vec \in SpCfgs   /\ pc = "gen1"
+           \/ Fam("idpmd") /\ kind = "idpmd"   /\ vec \in IdpCfgs  /\ pc = "gen1"
+           \/ /\ Fam("slots") /\ kind = "slots" /\ pc = "marshal"
+              /\ \E ty \in SlotTypes : \E vals \in SlotVecs(ty) : vec = [ty |-> ty, vals |-> vals]
         /\ text = IF kind = "durstr" THEN vec ELSE IF kind = "inststr" THEN FText(vec) ELSE <<>>
         /\ back = <<>>
+        /\ how = CallHow                              \* the text kinds call UnmarshalText directly
 
+\* the hand-over mode is chosen here
 MarshalStage ==
   /\ pc = "marshal"
-  /\ text' = IF kind = "dur" THEN DMarshal(vec) ELSE IMarshal(vec)
+  /\ \E h \in HowsAt(kind, vec) :
+       /\ how' = h
+       /\ text' = CASE kind = "dur"  -> DurTextVia(h, vec)
+                    [] kind = "inst" -> InstTextVia(h, vec)
+                    [] OTHER         -> SlotsText(vec.ty, vec.vals, h)
   /\ pc' = "unmarshal"
   /\ UNCHANGED <<kind, vec, back>>
 
 UnmarshalStage ==
   /\ pc = "unmarshal"
-  /\ back' = IF kind \in {"dur", "durstr"} THEN DUnmarshal(text) ELSE IUnmarshal(text)
+  /\ back' = CASE kind = "dur"    -> DUnmarshalVia(how.car, text)
+               [] kind = "durstr" -> DUnmarshal(text)
+               [] kind = "slots"  -> SlotsBack(vec.ty, vec.vals, text)
+               [] OTHER           -> IUnmarshal(text)
   /\ pc' = "done"
-  /\ UNCHANGED <<kind, vec, text>>
+  /\ UNCHANGED <<kind, vec, how, text>>
 
-\* generation 1: value -> document -> value
+\* generation 1: value -> document -> value; the hand-over mode is chosen here
 Gen1Stage ==
   /\ pc = "gen1"
-  /\ back' = CASE kind = "md"  -> <<Gen(vec)>>
-               [] kind = "esd" -> <<EsdGen(vec)>>
-               [] OTHER        -> <<>>                       \* generated metadata: the value itself
-  /\ pc' = IF kind \in {"md", "esd"} /\ ~(kind = "md" /\ Gen(vec).err) THEN "gen2" ELSE "done"
+  /\ \E h \in HowsAt(kind, vec) :
+       /\ how' = h
+       /\ back' = CASE kind = "md"  -> <<Gen(vec, h)>>
+                    [] kind = "esd" -> <<EsdGen(vec, h)>>
+                    [] OTHER        -> <<GeneratedGen(h)>>            \* generated metadata: does the document re-parse
+       /\ pc' = IF (kind = "md" /\ ~Gen(vec, h).err) \/ (kind = "esd" /\ ~EsdGen(vec, h).err) THEN "gen2" ELSE "done"
   /\ UNCHANGED <<kind, vec, text>>
 
-\* generation 2: the re-parsed value once more through the document form
+\* generation 2: the re-parsed value once more through the document form, handed over the same way
 Gen2Stage ==
   /\ pc = "gen2"
-  /\ back' = IF kind = "md" THEN Append(back, Gen(back[1].v)) ELSE Append(back, EsdGen(back[1]))
+  /\ back' = IF kind = "md" THEN Append(back, Gen(back[1].v, how)) ELSE Append(back, EsdGen(back[1].v, how))
   /\ pc' = "done"
-  /\ UNCHANGED <<kind, vec, text>>
+  /\ UNCHANGED <<kind, vec, how, text>>
 
 Next == MarshalStage \/ UnmarshalStage \/ Gen1Stage \/ Gen2Stage
 Spec == Init /\ [][Next]_vars
@@ -567,7 +844,10 @@ DClass(t) ==
 Canon(t) == LET r == DUnmarshal(t) IN r.ok /\ ~r.ovf /\ DMarshal(r.d) = t
 
 \* "every Duration marshals to xsd:duration text that unmarshals to the identical duration"
-DurRoundTrip == Done /\ kind = "dur" => back.ok /\ ~back.ovf /\ back.d = vec
+\* ... however the value is handed to the encoder.  Duration 0 has no xsd:duration text (the library's omitted
+\* form); a carrier that cannot omit it (attribute without omitempty, JSON string) promises nothing
+DurHowClass == IF MagZero(vec) /\ how.car \in {"attr", "str"} THEN "DontCare" ELSE "MustAccept"
+DurRoundTrip == Done /\ kind = "dur" /\ DurHowClass = "MustAccept" => back.ok /\ ~back.ovf /\ back.d = vec
 DurTextIsXsd == Done /\ kind = "dur" /\ ~MagZero(vec) => InXsdDuration(text)
 \* accept / reject sides, and (design level) the two regexps recognise exactly the lexical space
 DurGrammar   == Done /\ kind = "durstr" => /\ (DClass(text) = "MustAccept" => back.ok)
@@ -648,18 +928,50 @@ Preserves(v, g) == /\ g.eid = v.eid /\ g.keys = v.keys /\ g.cd = v.cd
                    /\ KeepsEps(v.idp.eps, g.idp.eps) /\ KeepsEps(v.sp.eps, g.sp.eps)
 MdFixedPoint == Done /\ kind = "md" /\ ~back[1].err => ~back[2].err /\ back[2].v = back[1].v
 MdPreserves  == Done /\ kind = "md" /\ MdClass(vec) = "MustAccept" => ~back[1].err /\ Preserves(vec, back[1].v)
-EsdFixedPoint == Done /\ kind = "esd" => back[2] = back[1] /\ back[1].cd = vec.cd /\ back[1].id = vec.id
+\* a cache duration that is present and 0 is the same value as an absent one
+CdSame(a, b) == IF a.p /\ ~MagZero(a.v) THEN b = a ELSE ~b.p \/ MagZero(b.v)
+EsdFixedPoint == Done /\ kind = "esd" => /\ ~back[1].err /\ Len(back) = 2 /\ ~back[2].err /\ back[2].v = back[1].v
+                                          /\ CdSame(vec.cd, back[1].v.cd) /\ back[1].v.id = vec.id
+\* "every metadata document the library generates for an SP or IdP re-parses", however it is handed to the encoder
+GeneratedReparses == Done /\ kind \in {"spmd", "idpmd"} => back[1]
+
+(* the round-trip clauses for every struct type that carries an instant or a duration, in every hand-over mode: *)
+(* what is generated re-parses, every instant to the same instant rounded to the millisecond (an exactly        *)
+(* preserved instant is that instant), every duration to the identical duration, absent parts stay absent       *)
+SlotKeeps(s, x, b) ==
+  /\ b.ok
+  /\ IF s.k = "inst" THEN b.p = x.p /\ (x.p => b.t \in Want(x.t))
+     ELSE IF x.p /\ ~MagZero(x.d) THEN b.p /\ b.d = x.d ELSE ~b.p \/ MagZero(b.d)
+SlotsClass(v) == IF \A i \in DOMAIN v.vals : TypeTab[v.ty].slots[i].k = "inst" /\ v.vals[i].p => InYears(v.vals[i].t)
+                   THEN "MustAccept" ELSE "DontCare"
+SlotsRoundTrip == Done /\ kind = "slots" /\ SlotsClass(vec) = "MustAccept" =>
+                    \A i \in DOMAIN vec.vals : SlotKeeps(TypeTab[vec.ty].slots[i], vec.vals[i], back[i])
 
 ExactlyOneOutcome == Done /\ kind \in {"dur", "durstr", "inst", "inststr"} => back.ok \in BOOLEAN
 
+\* design level: a pointer at the top of the path does not make the value addressable when an interface follows
+ASSUME AddressabilityRule == /\ Addressable(<<"ptr">>) /\ ~Addressable(<<>>) /\ ~Addressable(<<"ptr", "iface">>)
+                      /\ Addressable(<<"field", "elem">>) /\ ~Addressable(<<"field", "arr">>) /\ Addressable(<<"ptr", "field", "arr">>)
+                      /\ ~Addressable(<<"ptr", "field", "iface">>) /\ Addressable(<<"field", "iface", "ptr">>) /\ ~Addressable(<<"mapv">>)
+
 (***************************** vector emission *****************************)
+HowOut == [n |-> how.n, lib |-> how.lib, fn |-> how.fn, car |-> how.car, path |-> how.path, addr |-> Addressable(how.path)]
+SlotFound(v) == [i \in DOMAIN v.vals |-> LET sl == TypeTab[v.ty].slots[i] IN FoundAt(sl.own, how, sl.rel)]
 VecOut ==
-  CASE kind = "dur"     -> [prop |-> "C15", kind |-> kind, in |-> vec, text |-> text, class |-> "MustAccept", back |-> back]
+  CASE kind = "dur"     -> [prop |-> "C15", kind |-> kind, how |-> HowOut, found |-> Found("Duration", how), in |-> vec, text |-> text,
+                            class |-> DurHowClass, back |-> back]
     [] kind = "durstr"  -> [prop |-> "C15", kind |-> kind, text |-> text, class |-> DClass(text), canon |-> Canon(text), back |-> back]
-    [] kind = "inst"    -> [prop |-> "C15", kind |-> kind, in |-> vec, text |-> text, class |-> IClass(vec), want |-> Want(vec), back |-> back]
+    [] kind = "inst"    -> [prop |-> "C15", kind |-> kind, how |-> HowOut, found |-> Found("RelaxedTime", how), in |-> vec, text |-> text,
+                            class |-> IClass(vec), want |-> Want(vec), back |-> back]
     [] kind = "inststr" -> [prop |-> "C15", kind |-> kind, text |-> text, class |-> FClass(vec), tags |-> FTags(vec), want |-> FWant(vec), back |-> back]
-    [] kind = "md"      -> [prop |-> "C15", kind |-> kind, in |-> vec, class |-> MdClass(vec), gens |-> back]
-    [] kind = "esd"     -> [prop |-> "C15", kind |-> kind, in |-> vec, class |-> "MustAccept", gens |-> back]
-    [] OTHER            -> [prop |-> "C15", kind |-> kind, in |-> vec, class |-> "MustAccept"]
+    [] kind = "md"      -> [prop |-> "C15", kind |-> kind, how |-> HowOut, found |-> Found("EntityDescriptor", how), in |-> vec,
+                            class |-> MdClass(vec), gens |-> back]
+    [] kind = "esd"     -> [prop |-> "C15", kind |-> kind, how |-> HowOut, found |-> Found("EntitiesDescriptor", how), in |-> vec,
+                            class |-> "MustAccept", gens |-> back]
+    [] kind = "slots"   -> [prop |-> "C15", kind |-> kind, how |-> HowOut, ty |-> vec.ty, recv |-> Receiver(vec.ty), vals |-> vec.vals,
+                            slots |-> TypeTab[vec.ty].slots, sfound |-> SlotFound(vec), stext |-> text, class |-> SlotsClass(vec),
+                            sback |-> back]
+    [] OTHER            -> [prop |-> "C15", kind |-> kind, how |-> HowOut, found |-> Found("EntityDescriptor", how), in |-> vec,
+                            class |-> "MustAccept", reparses |-> back[1]]
 Emit == Done => PrintT(<<"VEC", ToJson(VecOut)>>)
 =============================================================================
